@@ -63,6 +63,8 @@ func runC05(c *Ctx) {
 	ruleStatementTextUnmodified(c, "C05.18")
 	ruleValueKindTotality(c, "C05.19", func(f *Func) bool { return f.Pkg == c.W.Pkgs["engine"] && !aggregateCone(f) }, 5)
 	ruleHeaderFieldsAreCopies(c, "C05.20")
+	ruleFetchFreshFields(c, "C05.21")
+	ruleThreeWayArmsAgree(c, "C05.22", "engine", "storage")
 }
 
 // aggregateCone: the functions that compute aggregates (C07's subjects); everything else in engine serves C05/C06.
@@ -1695,6 +1697,7 @@ func c06Ambiguity(c *Ctx, rule string) {
 // =========================== C07 ==============================================================
 
 func runC07(c *Ctx) {
+	defer ruleGroupByAlwaysGroups(c, "C07.15")
 	c.Rule("C07.1", "the GROUP BY list accepts its comma separator (C10.1 applied to GroupByClause)")
 	sub := NewCtx("C07", c.W)
 	c10Lists(sub, "C07.1")
